@@ -6,15 +6,17 @@ import burn_corr as BC
 
 UNITS = [
     flow.Unit('kenamond-dsd', groups=[], props=['props/C13_burn.v'], custom_corr=BC.unit_corr, oracle=BC.oracle),
-    flow.Unit('kenamond3-shadow', groups=[], props=[], oracle=BC.oracle, always_oracle=True,
-              note='Kenamond 3 shadow zone (inverse trigonometric path length): continuity/eikonal checked on the real code only'),
+    flow.Unit('kenamond3', groups=[], props=['props/C13_k3.v'], custom_corr=BC.unit_corr, oracle=BC.oracle, always_oracle=True,
+              note='Kenamond 3: t_d at the detonator and nowhere earlier (2-D, 3-D); the line-of-sight and tangent-arc-tangent branches agree on the shadow boundary; '
+                   'in the shadow zone the gradient (polar coordinates about the axis origin-detonator) has magnitude 1/D (theorems on the hand model, tied by the '
+                   'correspondence); global Lipschitz bound across the two branches: oracle on the real code'),
 ]
 
 
 def run(report, tier, rng):
     report.assumptions += [
         'hand-written per-point models of the vector code (coq/model/Burn.v), tied to the code by in-Coq correspondence goals',
-        'Kenamond 3 shadow-zone formula and the conclusion "inside |x|<=R the Kenamond 2 burn time is bt3" are not proved (oracle only)',
+        'the conclusion "inside |x|<=R the Kenamond 2 burn time is bt3" and a global Lipschitz bound for Kenamond 3 are not proved (oracle only)',
     ]
     flow.run_units(report, UNITS, tier, rng)
 
